@@ -151,9 +151,15 @@ def job(j):
                 else:
                     mm = compare(image, resp["data"], eng)
             st["distinct"].add((hash(json.dumps(pieces, sort_keys=True)), route))
+            if mm:
+                st.setdefault("budget", genrun.Budget("C11"))
+                if st["budget"].note({"kind": "introspection-mismatch", "route": route if "cook" in mm[0] else "*", "first": mm[0][:110]}):
+                    st["stop"] = True
             if mm and len(st["viol"]) < 400:
                 genrun.add_viol(st["viol"], ({"kind": "introspection-mismatch", "route": route if "cook" in mm[0] else "*", "first": mm[0][:110]},
                                              {"pieces": pieces, "sdl": sw.supply(pieces, "string", "/nonexistent"), "route": route, "mismatches": mm[:20]}))
+        if st.get("stop"):
+            raise StopIteration        # hundreds of mismatches already: the check fails; do not cook thousands of further engines
         if len(st["samples"]) < 1 and rec["steps"] >= 1:
             st["samples"].append({"sdl": sw.supply(pieces, "string", "/nonexistent")[:1800], "routes": sw.ROUTES, "expected_type_names": sorted(t["name"] for t in image["types"])})
 
